@@ -90,7 +90,8 @@ def run(rep, tier, props):
     rep.extra['partition_replays_solved'] = solved
     rep.extra['partition_transcription_drift'] = ndrift
     rep.extra['adaptive_times_random_rejected'] = sum(1 for r in results for n in r.get('notes', []) if n == 'product-rejected')
-    if rep.extra['adaptive_times_random_rejected'] == 0:
+    rep.extra['eventwise_rule_coefficients_checked'] = sum(1 for r in results for n in r.get('notes', []) if n == 'coefficients-checked')
+    if rep.extra['adaptive_times_random_rejected'] == 0 or rep.extra['eventwise_rule_coefficients_checked'] == 0:
         raise tlc.MachineryError('Partition: the adaptive x random rejection was never exercised')
     for job in jobs[:3]:
         rep.sample(dict(suite='Partition', history=job['rec']['hist'], expected_event_lists=job['rec']['ea'],
